@@ -9,14 +9,19 @@ Spec:   WbemUri.tla   symbol-level transcription of to_wbem_uri (4 formats),
                       accepted, parser total.
         WbemUriMC.tla TLC checks the four laws on the transcription for every
                       path of a structured universe and every single-symbol
-                      mutation of the printed URIs; 12 regression variants
+                      mutation of the printed URIs; 15 regression variants
                       (5 of them are behaviours of the pinned tree) must fail.
         WbemUriHeap.tla  the laws in a HISTORY of calls: Parse(text) returns
                       a fresh value that depends only on the text, Mutate of a
                       returned object (also of the reference it holds, nested),
-                      Print; requirement: round trip at any point, returned
-                      objects independent; code-shaped process heap (cells,
-                      addresses, cache switch).
+                      Print; every modification (effect x python route: setter,
+                      item access on the path, keybindings dictionary, update)
+                      is OBSERVED before and after (print, parse of the print,
+                      canonical text of a new equal path); requirement: round
+                      trip / canonical equality of the CURRENT value at any
+                      point, returned objects independent; code-shaped process
+                      heap (cells, addresses, parser cache switch, per-object
+                      cache of the canonical text).
         WbemUriHist.tla  TLC runs the code-shaped heap against the requirement
                       for all histories up to MaxLen over texts that share
                       reference texts; cache variants must fail; the
@@ -61,6 +66,12 @@ REGRESSION = [
      "REAL_VALUE exponent sign 'E-?': the e+NN that repr() prints rejected"),
     ("WbemUriMCHostHyphen.cfg", {"PrintedAccepted"},
      "authority pattern without '-': host 'my-host' printed, not accepted"),
+    ("WbemUriMCHostZone.cfg", {"PrintedAccepted"},
+     "authority pattern without '%': IPv6 host with a zone ID "
+     "'[fe80::1%25eth0]' printed, not accepted"),
+    ("WbemUriMCChar16Sq.cfg", {"PrintedAccepted"},
+     "char16-typed keys printed single quoted with the escaping of the "
+     "string branch: the apostrophe is not escaped"),
     ("WbemUriMCDtPre.cfg", {"RoundTrip"},
      "all-digits pre-check before CIMDateTime(): reduced precision datetime "
      "keys (asterisks) come back as strings"),
@@ -74,8 +85,12 @@ def traits(p, fmt, out=None):
         out.add("host-without-namespace")
     if p["hashost"] and "mi" in p["host"] and fmt != "cimobject":
         out.add("host-with-hyphen")
+    if p["hashost"] and "pz" in p["host"] and fmt != "cimobject":
+        out.add("host-with-zone-id")
     for b in p["kb"]:
         v = b["v"]
+        if v["t"] == "char16":
+            out.add("char16-typed")
         if v["t"] in ("string", "char16"):
             if "lf" in v["s"]:
                 out.add("string-with-newline")
@@ -120,6 +135,11 @@ def signature(ev, clauses):
 
 
 HIST_REGRESSION = [
+    ("WbemUriHistPrintCache.cfg", {"HistRoundTrip"},
+     "to_wbem_uri('canonical') caches its text in the object, cleared only "
+     "by the setters and path[k]=.. / del path[k]: after a change made "
+     "through the keybindings dictionary or to a referenced path the stale "
+     "text is printed"),
     ("WbemUriHistCacheRefsRT.cfg", {"HistRoundTrip"},
      "reference key values parsed through a cache keyed by their text (one "
      "shared object for equal text): after the caller modified the reference "
@@ -137,7 +157,7 @@ def hist_signature(events, at, clauses):
     """clauses : class/inst (the text or object of the rejected event) :
     step kinds up to the rejected event (mutate@ref<d> = d levels down)"""
     steps, tkind, hkind = [], [], []
-    kind = "inst"
+    kind, last_op = "inst", None
     for e in events[:at]:
         if e["kind"] == "htext":
             tkind.append(e["p"]["kind"])
@@ -148,6 +168,16 @@ def hist_signature(events, at, clauses):
         elif e["kind"] == "hmutate":
             steps.append("mutate@ref%d" % e["d"] if e["d"] else "mutate")
             kind = hkind[e["h"] - 1] if e["h"] <= len(hkind) else kind
+            last_op = e["f"]
+        elif e["kind"] == "hobs":
+            # observations are part of the mutate step; only a rejected one
+            # is named: format, and the operation it follows (or "before")
+            if e is events[at - 1]:
+                steps.append("observe(%s,%s)" % (
+                    e["fmt"], "after:" + last_op if last_op else "before"))
+            kind = hkind[e["h"] - 1] if e["h"] <= len(hkind) else kind
+        if e["kind"] != "hobs" and e["kind"] != "hmutate":
+            last_op = None
         elif e["kind"] == "hprint":
             steps.append("print")
             kind = hkind[e["h"] - 1] if e["h"] <= len(hkind) else kind
@@ -169,13 +199,14 @@ def stratified(rng, hists, texts, n):
                 key.append(("parse", tk, a in seen))
                 seen.append(a)
             elif kind == "mutate":
-                key.append(("mutate", a, d))
+                key.append(("mutate", a, d, x))
             else:
                 key.append(("print", a))
         groups.setdefault(tuple(key), []).append(h)
     keys = sorted(groups)
     for k in keys:
         rng.shuffle(groups[k])
+    rng.shuffle(keys)       # (there can be more shapes than n)
     out = []
     while len(out) < n and keys:
         for k in list(keys):
@@ -229,7 +260,7 @@ def run_histories(ctx, flags, quick):
             "WbemUriHist", "WbemUriHistSim.cfg", 300, 7,
             label="random histories of length 6")
         sims = [[list(st) for st in h] for h in sims if h]
-    nex = 1200 if quick else len(hists)
+    nex = 500 if quick else 4000
     chosen = stratified(ctx.rng, hists, texts, nex) + sims
     ctx.extra["histories_emitted_by_tlc"] = len(hists)
     ctx.extra["histories_replayed"] = len(chosen)
@@ -296,7 +327,7 @@ def hist_corrupted_rejected(ctx, traces, verdicts, flags):
     import copy
     pick = None
     for ev, v in zip(traces, verdicts):
-        steps = [e for e in ev if e["kind"] != "htext"]
+        steps = [e for e in ev if e["kind"] not in ("htext", "hobs")]
         if v["ok"] and [e["kind"] for e in steps] == \
                 ["hparse", "hparse", "hmutate"] and steps[2]["h"] == 1 and \
                 len(steps[2]["heap"]) == 2 and \
@@ -310,9 +341,12 @@ def hist_corrupted_rejected(ctx, traces, verdicts, flags):
         return
     # the second object shows the modification of the first one
     a = copy.deepcopy(pick)
+    at = [e["kind"] for e in a].index("hmutate")
+    a = a[:at + 1]
     a[-1]["heap"][1] = copy.deepcopy(a[-1]["heap"][0])
     # a later parse returns something else than the path that was printed
-    b = [e for e in copy.deepcopy(pick) if e["kind"] != "hmutate"]
+    b = [e for e in copy.deepcopy(pick)
+         if e["kind"] not in ("hmutate", "hobs")]
     second = [e for e in b if e["kind"] == "hparse"][1]
     second["q"]["cls"] = second["q"]["cls"] + ["a"]
     second["heap"][-1] = second["q"]
@@ -524,15 +558,21 @@ def run(ctx):
         "strings)",
         "'reads as a URI' is decided with the most permissive parser variant "
         "and 'reads as a datetime' means the whole string is a datetime",
-        "char16 is a 1-character str in pywbem; it is compared as a string",
+        "char16-typed keys are pywbem.Char16 objects (a str subclass); the "
+        "parser returns a 1-character str, compared as a string",
         "histories: texts of 6 paths that share reference texts (x 2 "
         "formats) and texts printed from returned objects; the caller's "
         "modifications are assignments to namespace / host / classname / a "
-        "keybinding (existing non-reference key, new key) of a returned "
-        "object or of the reference it holds (first reference keybinding, up "
-        "to 2 levels down); length 3 exhaustively (quick: 1,200 of them, "
-        "evenly over shapes), longer ones as random walks in the thorough "
-        "tier; objects are compared by value (projection), not by identity",
+        "keybinding (existing non-reference key, new key, delete a key, "
+        "replace all) of a returned object or of the reference it holds "
+        "(first reference keybinding, up to 2 levels down), each through "
+        "every python route (setter, path[k], path.keybindings[k], "
+        ".update()); the object is observed (printed in 3 formats, the print "
+        "parsed, canonical text of a new equal path) before and after each "
+        "modification; length 3 exhaustively (quick: 500 of them, evenly "
+        "over shapes; thorough: 4,000), longer ones as random walks in the "
+        "thorough tier; objects are compared by value (projection), not by "
+        "identity",
     ]
 
 
